@@ -208,7 +208,7 @@ def main(prop, check_module, cases, tier, seed, describe, symbolic=True, deadlin
     # ---------------------------------------------------------------- report
     seen_known = set()
     for e, v in known_hits:
-        key = e.get("signature") or id(e)
+        key = e.get("signature") or e.get("keyed_by") or ("%s:list#%d" % (prop, known.index(e)))
         if key not in seen_known:
             seen_known.add(key)
             print("KNOWN-FINDING: property=%s %s" % (prop, e.get("what", e.get("signature"))))
